@@ -176,6 +176,10 @@ theorem storeKey_eq_iff {d : Dims} (wf : d.WF) {ra a rb b ra' a' rb' b' : Int} (
       · have hn : ¬ ra < rb := by omega
         simp [hlt, hn]
 
+/-- **Old code, kept only as a regression witness** (before commit 58079aa5c the condition of `make_geo_data` read
+`if (ra != mra && rb != mrb)`): this is NOT what the code does now, see `Dims.fourTerms`. -/
+def Dims.fourTermsOld (d : Dims) (ra rb : Int) : Bool := ra != d.R - 1 - ra && rb != d.R - 1 - rb
+
 /-! ## the loop nest -/
 
 theorem mem_canon {d : Dims} {c : Key} :
